@@ -162,7 +162,20 @@ func (c *Ctx) mayModify(in ssa.Instruction, field string) bool {
 		cc := x.Common()
 		if fn := cc.StaticCallee(); fn != nil {
 			if m, ok := mods[fn]; ok {
-				return m[field]
+				if !m[field] {
+					return false
+				}
+				// constant boolean arguments: a store that only happens under `if flag` does not happen for flag=false
+				known := map[int]bool{}
+				for i, a := range cc.Args {
+					if k, ok := a.(*ssa.Const); ok && (isBoolConst(k, true) || isBoolConst(k, false)) {
+						known[i] = isBoolConst(k, true)
+					}
+				}
+				if len(known) > 0 {
+					return c.modsUnder(fn, field, known, 0)
+				}
+				return true
 			}
 			return false // non-module callee: cannot store to module struct fields directly
 		}
@@ -296,3 +309,82 @@ func heapLoadsOf(fn *ssa.Function) []heapLoad {
 }
 
 var _ = strings.Join
+
+// modsUnder: may fn store to field when the boolean parameters in known have those constant values? Blocks that are
+// only reached under the opposite value of such a parameter are skipped; calls are followed (static callees, three
+// levels) with the constants passed on, anything else falls back to the context-insensitive summary.
+func (c *Ctx) modsUnder(fn *ssa.Function, field string, known map[int]bool, depth int) bool {
+	mods := c.ModSummary()
+	if !mods[fn][field] {
+		return false
+	}
+	if depth > 3 || fn.Blocks == nil {
+		return true
+	}
+	paramIdx := func(v ssa.Value) int {
+		p := ParamOf(v)
+		if p == nil {
+			return -1
+		}
+		for i, q := range fn.Params {
+			if q == p {
+				return i
+			}
+		}
+		return -1
+	}
+	infeasible := func(b *ssa.BasicBlock) bool {
+		for _, f := range FactsAt(b) {
+			cond, truth := StripNot(f.Cond, f.Truth)
+			if i := paramIdx(cond); i >= 0 {
+				if v, ok := known[i]; ok && v != truth {
+					return true
+				}
+			}
+		}
+		return false
+	}
+	for _, b := range fn.Blocks {
+		if infeasible(b) {
+			continue
+		}
+		for _, in := range b.Instrs {
+			switch x := in.(type) {
+			case *ssa.Store:
+				if t, f, _, ok := FieldOf(x.Addr); ok && t+"."+f == field {
+					return true
+				}
+			case ssa.CallInstruction:
+				cc := x.Common()
+				if g := cc.StaticCallee(); g != nil {
+					if _, inMod := mods[g]; !inMod {
+						continue
+					}
+					k2 := map[int]bool{}
+					for i, a := range cc.Args {
+						if k, ok := a.(*ssa.Const); ok && (isBoolConst(k, true) || isBoolConst(k, false)) {
+							k2[i] = isBoolConst(k, true)
+						} else if pi := paramIdx(a); pi >= 0 {
+							if v, ok := known[pi]; ok {
+								k2[i] = v
+							}
+						}
+					}
+					if c.modsUnder(g, field, k2, depth+1) {
+						return true
+					}
+					continue
+				}
+				if c.mayModify(in, field) {
+					return true
+				}
+			}
+		}
+	}
+	for _, an := range fn.AnonFuncs {
+		if mods[an][field] {
+			return true
+		}
+	}
+	return false
+}
